@@ -26,8 +26,9 @@ type fakeLimiter1 struct {
 
 func (f *fakeLimiter1) MaxCapacity() uint32 { return f.maxcap.Load() }
 func (f *fakeLimiter1) Capacity() uint32 {
-	f.log.Logf("L", "capread")
-	return f.cap.Load()
+	v := f.cap.Load()
+	f.log.Logf("L", "capread %d", v)
+	return v
 }
 func (f *fakeLimiter1) GiveMe(v uint32)                 { f.log.Logf("L", "giveme %d", v) }
 func (f *fakeLimiter1) Start(ctx context.Context) error     { return nil }
